@@ -1,5 +1,56 @@
 import KrroodVerif.Sexp
+import KrroodVerif.Model.SymbolGraph
+import KrroodVerif.Drive.SG
+/-!
+C13 driver. Case: `(h <op> …)`. Observation `A|B`: `B` = the sorted census of every evaluated query, in order;
+`A` = `ok` when every census equals the live instances of the type known to the registry (ground truth: the model's
+heap here, the harness's own weak references on the implementation side), else the differences.
+`spec=ok|*`: the property demands agreement, whatever the instances are.
+-/
 namespace KrroodVerif.Drive.C13
-/-- stub: replaced when the model for C13 is built -/
-def run (_ : Sexp) : String := "model=unimplemented\tspec=unimplemented\ttrig="
+open KrroodVerif KrroodVerif.SG KrroodVerif.Drive.SG
+
+def dups (l : List Nat) : List Nat :=
+  (sortNat l).eraseDups.filter (fun x => l.count x > 1)
+
+def diffOf (i : Nat) (o : QOut) : Option String :=
+  let missing := (sortNat o.expected).filter (fun x => !o.res.contains x)
+  let extra := (sortNat o.res).eraseDups.filter (fun x => !o.expected.contains x)
+  let d := dups o.res
+  if missing.isEmpty && extra.isEmpty && d.isEmpty then none
+  else some s!"q{i}:missing={showNats missing},extra={showNats extra},dup={showNats d}"
+
+def enum {α} (l : List α) : List (Nat × α) := (List.range l.length).zip l
+
+def obs (out : List QOut) : String :=
+  let ds := (enum out).filterMap (fun p => diffOf p.1 p.2)
+  let a := if ds.isEmpty then "ok" else ";".intercalate ds
+  a ++ "|" ++ ";".intercalate (out.map fun o => showNats (sortNat o.res))
+
+/-- F-C13-1: a domain-less query object is evaluated a second time -/
+def trigReeval (ops : List Op) : Bool :=
+  let keys := ops.filterMap (fun op => match op with | .evalq k => some k | _ => none)
+  let implicit := ops.filterMap (fun op => match op with | .mkq k _ none => some k | _ => none)
+  keys.any (fun k => implicit.contains k && keys.count k > 1)
+
+def hasDup : List Nat → Bool
+  | [] => false
+  | x :: xs => xs.contains x || hasDup xs
+
+/-- F-C13-2: a domain-less query over a type below which some class is reachable along two inheritance paths -/
+def trigDiamond (ops : List Op) : Bool :=
+  ops.any (fun op => match op with | .mkq _ c none => hasDup (schema.below c) | _ => false)
+
+def run (s : Sexp) : String :=
+  match s with
+  | .list (.atom "h" :: xs) =>
+    match parseOps xs with
+    | some ops =>
+      let m := obs (runD Quirks.asIs ops).h.out
+      let mf := obs (runD Quirks.c14Fixed ops).h.out
+      let mr := obs (runD Quirks.none ops).h.out
+      let trig := joinTrig [(trigReeval ops, "F-C13-1"), (trigDiamond ops, "F-C13-2")]
+      s!"model={m}\tspec=ok|*\ttrig={trig}\tmodel_fixed={mf}\tmodel_repaired={mr}"
+    | none => "error=bad-case"
+  | _ => "error=bad-case"
 end KrroodVerif.Drive.C13
